@@ -568,7 +568,7 @@ class Bits:
                     if length < 0:
                         raise bitstring.CreationError("Can't create bitstring with a negative length.")
                     self._bitstore = temp.getslice(offset, offset + length)
-                    if len(self) != length:
+                    if len(self) != length or offset > len(temp):
                         raise bitstring.CreationError(f"Can't use a length of {length} bits and an offset of {offset} bits as file length is only {len(temp)} bits.")
 
     def _setbitarray(self, ba: bitarray.bitarray, length: Optional[int], offset: Optional[int]) -> None:
